@@ -56,6 +56,7 @@ def stepOps (s : State) : Op → List BufOp
     match freeAll s.heap s.nodes with
     | Option.none => []
     | some _ => [.deleteAll]
+  | .lookup i => [.peek i]
 
 /-- all calls on `master` over a history -/
 def traceOf : State → List Op → List BufOp
